@@ -557,8 +557,22 @@ func (fl *File) Sync() error {
 		return err
 	}
 	simrt.Yield("fs-fsync")
+	slowSync("fsync")
 	fl.fs.log(&Op{Kind: OpSync, Path: clean(fl.name), Ino: fl.ino.ino})
 	return nil
+}
+
+// SlowSync, when set by the harness, makes an fsync / sync(2) take virtual time
+// (a slow or stalled disk): the calling task is parked for the returned
+// duration and the barrier is recorded only when the call completes.
+var SlowSync func(kind string) time.Duration
+
+func slowSync(kind string) {
+	if SlowSync != nil && simrt.S != nil {
+		if d := SlowSync(kind); d > 0 {
+			simrt.Sleep(d)
+		}
+	}
 }
 
 func (fl *File) Truncate(size int64) error {
@@ -873,6 +887,7 @@ func Truncate(name string, size int64) error {
 // SyncFS is syscall.Sync(): a global durability barrier.
 func SyncFS() {
 	simrt.Yield("fs-syncfs")
+	slowSync("syncfs")
 	Cur.log(&Op{Kind: OpSyncFS})
 }
 
